@@ -16,7 +16,7 @@ from harness import sub_common as sc
 
 LEVEL = "model_checking"
 PROPS = ["IndependentJobsRun", "DependentsNeverRun", "ErrorNamesEveryFailedJob", "FailureIsReported", "NeverCrashes",
-         "StartAfterPredsSucceeded"]
+         "StartAfterPredsSucceeded", "NoPendingAtEnd"]
 
 
 def run(ctx):
@@ -29,6 +29,12 @@ def run(ctx):
     behs = [b for b in behs if b["fails"]]
     pick = behs if ctx.thorough and len(behs) < 600 else ctx.rng.sample(behs, min(len(behs), 600 if ctx.thorough else 36))
     specs = sc.schedules_to_specs(pick, "cf")
+    # late futures: when the first job to finish fails and another node fails too, let the first one's future
+    # complete late (result on disk, future outstanding while the other completions are processed)
+    for sp in list(specs):
+        fl = {tuple(j) for j in sp["fails"]}
+        if sp["order"] and tuple(sp["order"][0]) in fl and len({j[0] for j in fl}) >= 2:
+            specs.append(dict(sp, late=sp["order"][0][0]))
     obs = core.tmap(sc.run_and_trace, specs, threads=8)
     items = sc.judge_runs(ctx, specs, obs, "C14")
     if items:
